@@ -73,6 +73,21 @@ type Case struct {
 	// After Close the sender starts it immediately, so the first tunnel's Close frame and
 	// the second tunnel's first frames can sit in the receiver's socket buffer together.
 	Next *NextTunnel `json:"next,omitempty"`
+	// Poison: before the streams start, a frame write and two frame decodes FAIL on
+	// unrelated writers/readers (codec state must not leak from failed calls).
+	Poison bool `json:"poison,omitempty"`
+}
+
+func poison(seed uint32) {
+	id := wireID("poisoned-tunnel")
+	p := make([]byte, 300)
+	fill(p, seed, 0, 0x80)
+	w := &memWriter{budget: int(seed % 40), kind: []string{"timeout", "reset", "short", "closed"}[seed%4]}
+	crossnode.WriteFrameToWriter(w, id, crossnode.FrameTypeData, p)
+	crossnode.ReadFrameFromReader(bytes.NewReader(refEncode(id, crossnode.FrameTypeData, p)[:100]))
+	over := refEncode(id, crossnode.FrameTypeData, nil)
+	over[17] = 0x7F
+	crossnode.ReadFrameFromReader(bytes.NewReader(over))
 }
 
 // NextTunnel is the second tunnel on a reused connection. In its Ops an injected frame
@@ -107,8 +122,9 @@ func nextModel(c Case) []byte {
 
 // Replay is the on-disk replay unit of this package.
 type Replay struct {
-	Stream *Case      `json:"stream,omitempty"`
-	Codec  *CodecCase `json:"codec,omitempty"`
+	Stream  *Case      `json:"stream,omitempty"`
+	Codec   *CodecCase `json:"codec,omitempty"`
+	History *HistCase  `json:"history,omitempty"`
 }
 
 const (
@@ -306,16 +322,16 @@ func readAll(s *crossnode.FrameStream, sizes []int, limit int, progress *atomic.
 }
 
 type outcome struct {
-	fwd, rev     readResult
-	next         readResult
-	nextRan      bool
+	fwd, rev      readResult
+	next          readResult
+	nextRan       bool
 	nextDelivered int64
-	writeFail    string // first failing stream operation on a writer side
-	harnessErr   string // loopback / injection trouble: inconclusive
-	timedOut     bool
-	stuck        string // which goroutines had not finished when the watchdog fired
-	fwdDelivered int64
-	revDelivered int64
+	writeFail     string // first failing stream operation on a writer side
+	harnessErr    string // loopback / injection trouble: inconclusive
+	timedOut      bool
+	stuck         string // which goroutines had not finished when the watchdog fired
+	fwdDelivered  int64
+	revDelivered  int64
 }
 
 func runStream(c Case, quiet time.Duration) (o outcome) {
@@ -1032,6 +1048,10 @@ func checkStream(t vkit.TB, c Case) {
 			c.Next = &n
 		}
 	}
+	if c.Poison {
+		poison(c.Seed)
+		vkit.Class("feat:after-failed-codec-calls")
+	}
 	o := runStream(c, quietWindow())
 	if o.timedOut && o.harnessErr == "" {
 		// "end-of-stream is delivered" is the property: bounded wait, re-run once before reporting
@@ -1286,6 +1306,7 @@ func genReadSizes(t *rapid.T, label string) []int {
 
 func genCase(t *rapid.T) Case {
 	c := Case{Seed: rapid.Uint32().Draw(t, "seed"), Tracker: pick(t, "tracker", 2, 1, 1)}
+	c.Poison = pick(t, "poison", 2, 1) == 1
 	collide := pick(t, "idMode", 88, 12) == 1
 	c.OwnID, c.ForeignID = genIDs(t, collide)
 	budget := vkit.Pick(3<<20, 8<<20)
@@ -1408,6 +1429,8 @@ func TestReplay(t *testing.T) {
 		checkStream(t, *r.Stream)
 	case r.Codec != nil:
 		checkCodec(t, *r.Codec)
+	case r.History != nil:
+		checkHistory(t, *r.History)
 	default:
 		t.Fatalf("replay file has neither a stream nor a codec case")
 	}
